@@ -27,6 +27,10 @@ WantEdges(types, fields) ==
 WantEdgeCount(types, fields, e) ==
   Cardinality({i \in DOMAIN fields : fields[i][3] \in WantClasses(types) /\ <<fields[i][1], fields[i][3]>> = e})
 
+\* the type a field is listed with: the primitive name or the reference as written, inside its collection if any
+\* (a model field is [class, name, target, wrap, base]; the three-element form of the design-level check has no type)
+Label(f) == IF f[4] = "" THEN f[5] ELSE f[4] \o " <" \o f[5] \o ">"
+
 \* verdict for a diagram given as sequences of classes [label, letter], fields [class, name, text], edges [from, to, mult]
 Judge(types, fields, dclasses, dfields, dedges, undeclared) ==
   LET wc == WantClasses(types)
@@ -42,6 +46,8 @@ Judge(types, fields, dclasses, dfields, dedges, undeclared) ==
      \cup (IF \E c \in gc : Cardinality({i \in DOMAIN dclasses : dclasses[i][1] = c}) > 1 THEN {"ClassDeclaredTwice"} ELSE {})
      \cup (IF wf \ gf # {} THEN {"FieldMissing"} ELSE {})
      \cup (IF gf \ wf # {} THEN {"FieldNotInModel"} ELSE {})
+     \cup (IF \E f \in Range(fields), g \in Range(dfields) : Len(f) >= 5 /\ g[1] = f[1] /\ g[2] = f[2] /\ g[3] # Label(f)
+           THEN {"FieldTypeDiffers"} ELSE {})
      \cup (IF \E e \in pairs : got(e) < WantEdgeCount(types, fields, e) THEN {"RelationshipMissing"} ELSE {})
      \cup (IF \E e \in pairs : got(e) > WantEdgeCount(types, fields, e) + opt(e) THEN {"RelationshipNotInModel"} ELSE {})
      \* a line whose target is not declared in this diagram is tolerated for references to types that
